@@ -210,36 +210,43 @@ Definition result_slots (m : method) (succ : option val) (thrown : option (Z * v
                    | None => None
                    end) (m_throws m).
 
+(** the part of <svc>F<Method>.Process after the handler returned: what is written to the output
+    protocol ([None] = nothing).  SendError for a TApplicationException, a declared exception into
+    its result field, any other error as INTERNAL_ERROR, a value into [success]; a oneway method
+    answers only errors.  A result struct the generated Write refuses (a value outside the declared
+    type) leaves a truncated message in the buffer in the real code; the model reports that as [Err]. *)
+Definition respond (e : env) (rh : list hpair) (m : method) (o : houtcome) : res (option bytes) :=
+  let send_error kind text := Ok (Some (exception_msg rh (m_wire m) kind text)) in
+  let internal text := s_internal_error ++ m_wire m ++ s_colon ++ text in
+  let reply slots :=
+      do b <- gwrite e (TRef (m_result m)) (VStruct slots);
+      Ok (Some (marshal rh ++ msg_begin_enc (m_wire m) T_REPLY 0 ++ b)) in
+  match o with
+  | HAppExc kind text => send_error kind text
+  | HOther text => send_error AE_INTERNAL_ERROR (internal text)
+  | HDeclared n v text =>
+    match (if m_oneway m then None else find_throw e n (m_throws m)) with
+    | Some f => reply (result_slots m None (Some (fid f, v)))
+    | None => send_error AE_INTERNAL_ERROR (internal text)
+    end
+  | HRet ov =>
+    if m_oneway m then Ok None
+    else reply (result_slots m ov None)
+  end.
+
 (** <svc>F<Method>.Process(fctx, iprot, oprot): [input] is what follows the message header.
-    Result: what was written to the output protocol ([None] = nothing) and the handler log.
-    A result struct the generated Write refuses (a value outside the declared type) leaves a
-    truncated message in the buffer in the real code; the model reports that as [Err]. *)
+    Result: what was written to the output protocol and the handler log. *)
 Definition method_process (fuel : nat) (e : env) (h : handler) (rh : list hpair) (m : method) (input : bytes)
   : res (option bytes * hlog) :=
-  let send_error kind text := Ok (Some (exception_msg rh (m_wire m) kind text)) in
   match gread fuel e (TRef (m_args m)) input with
-  | Err _ => do o <- send_error AE_PROTOCOL_ERROR []; Ok (o, [])     (* text: err.Error(), not modelled *)
+  | Err _ =>    (* SendError(PROTOCOL_ERROR, err.Error()); the text is not modelled *)
+    Ok (Some (exception_msg rh (m_wire m) AE_PROTOCOL_ERROR []), [])
   | Panic p => Panic p
   | OutOfFuel => OutOfFuel
   | Ok (a, _) =>
     let args := slots_of a in
-    let log := [(m_wire m, args)] in
-    let internal text := s_internal_error ++ m_wire m ++ s_colon ++ text in
-    let reply slots :=
-        do b <- gwrite e (TRef (m_result m)) (VStruct slots);
-        Ok (Some (marshal rh ++ msg_begin_enc (m_wire m) T_REPLY 0 ++ b), log) in
-    match h (m_wire m) args with
-    | HAppExc kind text => do o <- send_error kind text; Ok (o, log)
-    | HOther text => do o <- send_error AE_INTERNAL_ERROR (internal text); Ok (o, log)
-    | HDeclared n v text =>
-      match (if m_oneway m then None else find_throw e n (m_throws m)) with
-      | Some f => reply (result_slots m None (Some (fid f, v)))
-      | None => do o <- send_error AE_INTERNAL_ERROR (internal text); Ok (o, log)
-      end
-    | HRet ov =>
-      if m_oneway m then Ok (None, log)
-      else reply (result_slots m ov None)
-    end
+    do o <- respond e rh m (h (m_wire m) args);
+    Ok (o, [(m_wire m, args)])
   end.
 
 (** FBaseProcessor.Process(iprot, oprot) *)
